@@ -265,9 +265,26 @@ def run(chk, facts):
         # the argument must be the closure's tuple parameter bound to the captured text
         chk.ob("R-C18-5", "relex-verbatim", ok, f"the captured text is re-lexed as it is (`tokenize_direct({arg})`)" if ok else
                f"the interpolated text is transformed before re-lexing (`tokenize_direct({arg})`): the recorded offset no longer matches its first character", loc)
-        nodes = list(walk(strarm["body"]))
-        ok = any(n.get("k") == "call" and n["f"].get("k") == "path" and n["f"]["p"] == "Lex::new" and n["args"] and
-                 src(strip(n["args"][0])).replace(" ", "") == "lex.pos.offset(offset).start" for n in nodes)
+        from .common import inline_lets
+        nodes = list(walk(inline_lets(strarm["body"])))     # `let start = lex.pos.offset(offset).start; Lex::new(start, ..)` alike
+        # every Lex::new in the string arm (they build the nested tokens) starts at <token>.pos.offset(<recorded offset>).start, where the
+        # offset is the one bound together with the re-lexed text (tuple pattern of the closure / loop over `exprs`)
+        lex_news = [n for n in nodes if n.get("k") == "call" and n["f"].get("k") == "path" and n["f"]["p"] == "Lex::new" and n["args"]]
+        off_names = set()
+        for n in walk(strarm["body"]):
+            pats = []
+            if n.get("k") == "closure":
+                pats = n.get("params", [])
+            elif n.get("k") == "for":
+                pats = [n["pat"]]
+            for p_ in pats:
+                tp = [x for x in walk(p_) if x.get("k") == "ptuple" and len(x["elems"]) == 2]
+                for t_ in tp:
+                    nm = [x["name"] for x in walk(t_["elems"][0]) if x.get("k") == "pident"]
+                    off_names |= set(nm)
+        ok = bool(lex_news) and bool(off_names) and all(
+            re.fullmatch(r"\(*(\w+)\.pos\.offset\(&?(\w+)\)\)*\.start", src(strip(n["args"][0])).replace(" ", "")) is not None and
+            re.fullmatch(r"\(*(\w+)\.pos\.offset\(&?(\w+)\)\)*\.start", src(strip(n["args"][0])).replace(" ", "")).group(2) in off_names for n in lex_news)
         chk.ob("R-C18-5", "offset-applied", ok, "every nested token is shifted by the recorded offset" if ok else "nested tokens are no longer shifted by `lex.pos.offset(offset)`", loc)
         ok = any(n.get("k") == "assign" and src(strip(n["l"])) == "cur_offset" and
                  src(strip(n["r"])).replace(" ", "").replace("(", "").replace(")", "") == "state.pos.offset_posstring.len+1" for n in nodes)
